@@ -213,6 +213,9 @@ func genC11(r *Rand, n int, thorough bool, emit func(string)) {
 		w := r.Range(-1, 8)
 		if r.Chance(1, 8) {
 			w = r.Range(9, 24)
+			if r.Chance(1, 4) {
+				w = r.Range(25, 70)
+			}
 		}
 		emit(fmt.Sprintf("padrange %s %d", hx(txt), w))
 		if i%40 == 7 {
@@ -347,10 +350,11 @@ func genC08(r *Rand, n int, thorough bool, emit func(string)) {
 
 // ---- C03 / C04: sequence strings ----
 
-var dirs = []string{"", "/", "/a/b/", "rel/", "./", "/proj/sh010.comp/", "/v1.2/", "/a b/", "/x_y-z/", "../up/", "/-/", "/1/"}
+var dirs = []string{"", "/", "/a/b/", "rel/", "./", "/proj/sh010.comp/", "/v1.2/", "/a b/", "/x_y-z/", "../up/", "/-/", "/1/",
+	"/shots/010//", "//", "renders///", "/a//b/"}
 var bases = []string{"foo.", "foo_", "foo", "", "a.b.", "shot_x", "shot_y", "take:", "list,", "name-", "v2_", "img.v", "é.", "beauty_left.", "a1b", "x",
 	"Scene 3, ", "v2-, ", "take 7,  ", "C:\\renders\\beauty.", "a\\b_"}
-var exts = []string{".exr", "", ".tar.gz", ".1x", ".jpg", ".a1", ".exr.tmp", ".v2.tif", ".", ".7z", ".e x", ".50%.jpg", ".a%b", ".tar%2Egz"}
+var exts = []string{".exr", "", ".tar.gz", ".1x", ".jpg", ".a1", ".exr.tmp", ".v2.tif", ".", ".7z", ".e x", ".50%.jpg", ".a%b", ".tar%2Egz", ".bgeo/part.sc", ".d/x"}
 var padToks = []string{"#", "@", "##", "@@@", "#@", "@#@", "####", "@@@@@@@", "%d", "%04d", "%02d", "%1d", "%010d", "%012d", "$F", "$F4", "$F2", "$F04",
 	"$F12", "<UDIM>", "%(UDIM)d", "@@@@@@@@@@@@", "###"}
 
@@ -469,6 +473,13 @@ func genSeqStrings(r *Rand, n int, thorough bool, c04 bool, emit func(string)) {
 			path := d + b + num + e
 			if r.Chance(1, 6) {
 				path = d + b + e // no frame at all
+			}
+			if r.Chance(1, 14) {
+				// an extension-less file below a directory whose name ends in a dotted number
+				// (the extension pattern may run across the separator), digit runs beyond int64
+				path = r.Pick([]string{"/usr/lib/python3.11/COPYING", "/home/u/site-1.2/LICENSE", "proj.v0012.bak/Makefile",
+					"rel/v2.7/x", "/a/img_20240131123456789012.jpg", "scan.99999999999999999999.exr", "/d/f.9223372036854775808.e",
+					"/d/f.9223372036854775807.e", "/d/take.-9223372036854775809"})
 			}
 			if c04 {
 				emit(seqOp(r, style, path, []string{"single"}))
